@@ -1,3 +1,4 @@
+import GoaVerif.Model.VMerge
 import GoaVerif.Model.Validation
 import GoaVerif.Generated.FactsValCode
 import GoaVerif.Lemmas.ValCode
@@ -306,5 +307,66 @@ example : runL (compileBody 5 asmAtt) asmBad =
     [.invalidRange, .invalidPattern, .invalidLength, .invalidEnumValue, .invalidRange, .missingField] := by decide
 
 end Assembly
+
+/-! ### Combining the validations of two levels (`ValidationExpr.Merge`)
+`Model/VMerge.lean`, tied statement for statement by `rtvalcode vmerge` ↔ `drv_valid vmerge`. Used for an alias type and the attribute of
+that type, and (since 67e3a51) for a design attribute and its HTTP mapping. -/
+section merge
+open GoaVerif.VMerge
+
+/-- keywords that are text (format, pattern, enum): the receiver's own wins, a missing one is taken from the other level — so a format
+    from one level and a pattern from the other BOTH hold -/
+theorem merge_text_keywords (v o : V) :
+    (merge v o).format = (if v.format == "" then o.format else v.format) ∧
+    (merge v o).pattern = (if v.pattern == "" then o.pattern else v.pattern) ∧
+    (merge v o).values = (if v.values.isNone then o.values else v.values) := ⟨rfl, rfl, rfl⟩
+
+theorem merge_keeps_format_and_pattern (v o : V) (hf : v.format ≠ "") (hp : v.pattern = "") (ho : o.pattern ≠ "") :
+    (merge v o).format = v.format ∧ (merge v o).pattern = o.pattern := by
+  simp [merge, hf, hp]
+
+/-- a bound given at one level only is kept -/
+theorem merge_bound_one_level (v o : V) (h : v.min = none) : (merge v o).min = o.min := by
+  simp [merge, pickSmaller, h]
+
+/-- lower bounds and minimum lengths given at both levels: the SMALLER one; upper bounds and maximum lengths: the LARGER one
+    (the combined rule is the looser of the two, never stricter than the receiver's own) -/
+theorem merge_bounds_both_levels (v o : V) (a b : Int) :
+    (v.min = some a → o.min = some b → (merge v o).min = some (min a b)) ∧
+    (v.max = some a → o.max = some b → (merge v o).max = some (max a b)) ∧
+    (v.minLen = some a → o.minLen = some b → (merge v o).minLen = some (min a b)) ∧
+    (v.maxLen = some a → o.maxLen = some b → (merge v o).maxLen = some (max a b)) := by
+  refine ⟨?_, ?_, ?_, ?_⟩ <;> intro h1 h2 <;> simp only [merge, pickSmaller, pickLarger, h1, h2] <;> split <;> simp <;> omega
+
+/-- As written in /repo the EXCLUSIVE maximum is the odd one out: the smaller (stricter) of the two is kept, where `Maximum` keeps the larger. -/
+theorem merge_exclusive_maximum_keeps_smaller :
+    (merge { exMax := some 5 } { exMax := some 3 }).exMax = some 3 ∧ (merge { max := some 5 } { max := some 3 }).max = some 5 := by decide
+
+theorem addRequired_mem (h rs : List String) (x : String) : x ∈ addRequired h rs ↔ x ∈ h ∨ x ∈ rs := by
+  induction rs generalizing h with
+  | nil => simp [addRequired]
+  | cons r rs ih =>
+    unfold addRequired
+    split
+    · rename_i hc
+      have : r ∈ h := by simpa using hc
+      rw [ih]; constructor
+      · rintro (hx | hx); exact Or.inl hx; exact Or.inr (List.mem_cons_of_mem _ hx)
+      · rintro (hx | hx)
+        · exact Or.inl hx
+        · rcases List.mem_cons.mp hx with rfl | hx
+          · exact Or.inl this
+          · exact Or.inr hx
+    · rw [ih]; simp only [List.mem_append, List.mem_cons, List.not_mem_nil, or_false]
+      constructor
+      · rintro ((hx | hx) | hx); exact Or.inl hx; exact Or.inr (Or.inl hx); exact Or.inr (Or.inr hx)
+      · rintro (hx | hx | hx); exact Or.inl (Or.inl hx); exact Or.inl (Or.inr hx); exact Or.inr hx
+
+/-- the required names of both levels, each once when the receiver's were -/
+theorem merge_required (v o : V) (x : String) : x ∈ (merge v o).required ↔ x ∈ v.required ∨ x ∈ o.required :=
+  addRequired_mem v.required o.required x
+
+example : merge { format := "date" } { pattern := "^20", min := some 3 } = { format := "date", pattern := "^20", min := some 3 } := by decide
+end merge
 
 end GoaVerif.Props.C04
